@@ -1,7 +1,7 @@
 (* C19 specification side: how the generated tables (Gen/*.v, regenerated from /repo on every
    run) are read.  Nothing here depends on the generated content. *)
 From Coq Require Import List String ZArith NArith Bool.
-Require Import V.Ref.RefLayout.
+Require Import V.Ref.RefLayout V.Model.ErrFmt.
 Import ListNotations.
 Open Scope string_scope.
 
@@ -58,6 +58,23 @@ Definition fn_ok (tab : ctable) (fns : list (string * (string * list (string * s
   | Some (_, arms) => forallb (arm_ok tab) arms
   | None => false
   end.
+
+(* ---------- *_to_string: the name when the *_to_str helper it consults has one, otherwise
+   format!("prefix({v:#x})") ---------- *)
+Definition to_string_sem (tab : ctable) (fns : list (string * (string * list (string * string))))
+           (w : string * (string * string)) (v : Z) : option string :=
+  let '(_, (inner, prefix)) := w in
+  match lookup inner fns with
+  | Some (_, arms) =>
+    Some (match to_str_sem tab arms v with
+          | Some s => s
+          | None => prefix ++ "(" ++ hex0xl (Z.to_N v) ++ ")"
+          end)
+  | None => None
+  end.
+Definition wrapper_ok (fns : list (string * (string * list (string * string)))) (e : string * (string * (string * string))) : bool :=
+  let '(_, (_, (inner, _))) := e in
+  existsb (String.eqb inner) symbolic_fns && match lookup inner fns with Some _ => true | None => false end.
 
 (* ---------- #[repr(C)] layout on x86_64 (and every target with natural alignment of the fixed
    width integers): each field at the next multiple of its alignment, size rounded to the
